@@ -209,3 +209,48 @@ pub fn pragmatic_values(data: &[u8]) -> Result<FuzzOutcome, String> {
     }
     Ok(out)
 }
+
+/// Replays every file of a libFuzzer corpus through the decoder and oracles, counts what the campaign actually reached
+/// and merges the numbers into `coverage.fuzz` of an evidence file (extra keys are allowed there).
+pub fn corpus_stats(corpus_dir: &str, evidence_file: &str, execs: u64, findings: u64) {
+    let mut files: Vec<std::path::PathBuf> = std::fs::read_dir(corpus_dir).into_iter().flatten().flatten().map(|e| e.path()).filter(|p| p.is_file()).collect();
+    files.sort();
+    let (mut decoded, mut deserialised, mut accepted, mut known, mut rejected_by_codes) = (0u64, 0u64, 0u64, 0u64, 0u64);
+    let mut kinds: std::collections::BTreeMap<String, u64> = Default::default();
+    let mut samples = vec![];
+    for f in files.iter() {
+        let Ok(data) = std::fs::read(f) else { continue };
+        if let Ok(o) = pragmatic_values(&data) {
+            if o.mutations.is_empty() {
+                continue;
+            }
+            decoded += 1;
+            for m in o.mutations.iter() {
+                *kinds.entry(m.split(':').next().unwrap_or("?").to_string()).or_default() += 1;
+            }
+            deserialised += o.deserialised as u64;
+            accepted += o.accepted as u64;
+            known += o.known_panic as u64;
+            rejected_by_codes += (o.deserialised && !o.accepted && !o.known_panic) as u64;
+            if samples.len() < 4 && o.deserialised {
+                samples.push(serde_json::json!({"corpus_file": f.file_name().and_then(|n| n.to_str()), "mutations": o.mutations, "accepted": o.accepted}));
+            }
+        }
+    }
+    let fuzz = serde_json::json!({
+        "target": "pragmatic_values (libFuzzer, cargo-fuzz)", "executions": execs, "findings": findings, "corpus_files": files.len(),
+        "corpus_cases_with_mutations": decoded, "schema_shaped (deserialised, C11 idempotence checked)": deserialised,
+        "accepted_by_validation": accepted, "rejected_with_error_codes": rejected_by_codes, "known_panic_sites_hit": known,
+        "mutation_kinds": kinds, "samples": samples,
+        "rule": "bytes are decoded into (example problem of the repository, 1-6 value-level mutations of its JSON tree that keep the schema shape); non-trivial = the mutated document still deserialises, so validation and problem construction really run"
+    });
+    if let Ok(text) = std::fs::read_to_string(evidence_file) {
+        if let Ok(mut doc) = serde_json::from_str::<Value>(&text) {
+            if let Some(cov) = doc.get_mut("coverage").and_then(|c| c.as_object_mut()) {
+                cov.insert("fuzz".to_string(), fuzz.clone());
+                let _ = std::fs::write(evidence_file, serde_json::to_string_pretty(&doc).unwrap_or(text));
+            }
+        }
+    }
+    crate::outln!("fuzz stage: {}", fuzz);
+}
